@@ -3,3 +3,4 @@ import ChamProofs.Props.C03
 import ChamProofs.Props.C02
 import ChamProofs.Props.C13
 import ChamProofs.Props.C01
+import ChamProofs.Props.C05
